@@ -1461,7 +1461,7 @@ theorem renew_of_wf {t : AnyTier Int} (h : AnyWF t) (n : String) :
     have : t.new (name := some n) = .ok { t with name := n } := by
       unfold ITier.new
       simp only [Option.getD_none, Option.getD_some]
-      rw [mkITier_of_wf n t.es t.lo t.hi h.pos h.disj h.stripped]
+      rw [mkITier_of_wf n t.es t.lo t.hi h.span h.pos h.disj h.stripped]
       rw [hullMin_eq_of_le _ _ (by intro x hx; obtain ⟨iv, hiv, rfl⟩ := List.mem_map.1 hx; exact h.inLo iv hiv)]
       rw [hullMax_eq_of_ge _ _ (by intro x hx; obtain ⟨iv, hiv, rfl⟩ := List.mem_map.1 hx; exact h.inHi iv hiv)]
     simp only [AnyTier.renew, this]; rfl
